@@ -75,19 +75,25 @@ func (tx *Tx) change(f *FeeQuote, output *changeOutput) (uint64, bool, error) {
 	if err != nil {
 		return 0, false, err
 	}
-	varIntUpper := VarInt(tx.OutputCount()).UpperLimitInc()
-	if varIntUpper == -1 {
-		return 0, false, nil
-	}
-	changeOutputFee := varIntUpper
-	changeP2pkhByteLen := uint64(0)
+	// A new output adds its own bytes (value, script length prefix, script) and, when the
+	// output count crosses a VarInt boundary, the growth of the count prefix. All of them
+	// are standard bytes and are charged at the quoted rate.
+	changeOutputByteLen := uint64(0)
 	if output != nil && output.newOutput {
-		changeP2pkhByteLen = uint64(8 + 1 + 25)
+		varIntUpper := VarInt(tx.OutputCount()).UpperLimitInc()
+		if varIntUpper == -1 {
+			return 0, false, nil
+		}
+		scriptLen := uint64(0)
+		if output.lockingScript != nil {
+			scriptLen = uint64(len(*output.lockingScript))
+		}
+		changeOutputByteLen = 8 + uint64(VarInt(scriptLen).Length()) + scriptLen + uint64(varIntUpper)
 	}
 
-	sFees := (size.TotalStdBytes + changeP2pkhByteLen) * uint64(stdFee.MiningFee.Satoshis) / uint64(stdFee.MiningFee.Bytes)
+	sFees := (size.TotalStdBytes + changeOutputByteLen) * uint64(stdFee.MiningFee.Satoshis) / uint64(stdFee.MiningFee.Bytes)
 	dFees := size.TotalDataBytes * uint64(dataFee.MiningFee.Satoshis) / uint64(dataFee.MiningFee.Bytes)
-	txFees := sFees + dFees + uint64(changeOutputFee)
+	txFees := sFees + dFees
 
 	// not enough to add change, no change to add
 	if available <= txFees || available-txFees <= DustLimit {
